@@ -23,7 +23,7 @@ CONSTANTS MaxFeatures,     \* optional features per program
 AllFeatures == {"steps", "comp", "cons", "lmi", "metrics", "part", "lmimetric", "unsent"}
 LmiSize(code) == CASE code = "L1" -> 1 [] code = "S3" -> 3 [] OTHER -> 2
 ConsCodes == {"pi", "pe", "pg", "pm", "pd", "fi", "ci", "dup", "dupf", "se"}   \* se: a direction of prescribed small size |e|^2 = 1/4096; dup: the SAME constraint object declared twice
-LmiCodes == {"S2", "D2", "L1", "N2", "S3", "F2"}
+LmiCodes == {"S2", "D2", "L1", "N2", "S3", "F2", "V2", "B2"}   \* B2 declares TWO matrices (a re-used numpy buffer)
 ClassLmis(c) == IF c \in {4, 6, 7} THEN 1 ELSE IF c = 8 THEN 2 ELSE 0
 VARIABLES prog, solves, phase, epoch, sent, native, dualpos, cache, nClassLmi, nPartRows, hist
 vars == <<prog, solves, phase, epoch, sent, native, dualpos, cache, nClassLmi, nPartRows, hist>>
@@ -60,9 +60,10 @@ SentList(p, edits, classLmis, partRows) ==
      Rep(Sc("metric"), p.metrics + edits.metric)
   \o <<Sc("pep")>>                                                   \* the initial condition
   \o [i \in 1..Len(PepCons(p)) |-> Sc("pep")] \o [i \in 1..Len(DupPep(p)) |-> Sc("pep")]
-  \o [i \in 1..Len(PepLmis(p)) |-> Lm("pep", LmiSize(PepLmis(p)[i]))] \o Rep(Lm("pep", 2), edits.lmi)
+  \o [i \in 1..Len(PepLmis(p)) |-> Lm("pep", LmiSize(PepLmis(p)[i]))]
+  \o [i \in 1..Len(SelectSeq(p.lmis, LAMBDA c : c = "B2")) |-> Lm("pep", 2)] \o Rep(Lm("pep", 2), edits.lmi)
   \o Rep(Sc("class"), ClassRows) \o Rep(Lm("class", 2), classLmis)
-  \o [i \in 1..Len(FunCons(p)) |-> Sc("fun")] \o [i \in 1..Len(FunLmis(p)) |-> Lm("fun", 2)]
+  \o [i \in 1..Len(FunCons(p)) |-> Sc("fun")] \o Rep(Sc("fun"), edits.fcons) \o [i \in 1..Len(FunLmis(p)) |-> Lm("fun", 2)]
   \o Rep(Sc("part"), partRows)
 \* native cvxpy list: entries [kind, item] where item = index in the sent list (0 for G and the extra row)
 RECURSIVE NativeFrom(_, _)
@@ -77,9 +78,10 @@ Walk(s, k, counter) == IF k > Len(s) THEN <<>> ELSE
    <<counter>> \o Walk(s, k + 1, IF s[k].k = "sc" THEN counter + 1
                                  ELSE counter + 1 + (IF DevSkip THEN s[k].n * s[k].n - 1 ELSE s[k].n * s[k].n))
 Edits == [metric |-> Cardinality({i \in 1..Len(solves) : solves[i].edit = "metric"}),
-          lmi |-> Cardinality({i \in 1..Len(solves) : solves[i].edit = "lmi"})]
+          lmi |-> Cardinality({i \in 1..Len(solves) : solves[i].edit = "lmi"}),
+          fcons |-> Cardinality({i \in 1..Len(solves) : solves[i].edit = "fcons"})]
 SolveOpts == [wrapper : Wrappers, mode : {"dual", "primal"}, heur : {"none", "trace", "logdet1", "logdet2"},
-              edit : {"none", "init", "metric", "lmi", "block", "tsample", "infeasible", "feasible-again"}, verbose : {0, 1}]
+              edit : {"none", "init", "metric", "lmi", "block", "tsample", "fcons", "infeasible", "feasible-again"}, verbose : {0, 1}]
 Infeasible(sv) == Cardinality({i \in 1..Len(sv) : sv[i].edit = "infeasible"}) > Cardinality({i \in 1..Len(sv) : sv[i].edit = "feasible-again"})
 Solve ==
   /\ Len(solves) < MaxSolves
@@ -87,6 +89,7 @@ Solve ==
        /\ (o.edit # "none" => Len(solves) >= 1)                      \* edits happen between solves
        /\ (o.edit = "feasible-again" => Infeasible(solves))
        /\ (o.edit = "infeasible" => ~Infeasible(solves))
+       /\ (o.edit = "fcons" => \A i \in 1..Len(solves) : solves[i].edit # "fcons")
        /\ (o.edit = "tsample" => prog.cls = 8 /\ \A i \in 1..Len(solves) : solves[i].edit # "tsample")   \* sample the adjoint once more
        /\ (o.edit = "block" => prog.part # 0 /\ \A i \in 1..Len(solves) : solves[i].edit # "block")   \* decompose one more point
        /\ (o.verbose = 1 => o.heur = "none" /\ o.mode = "dual")
@@ -95,9 +98,10 @@ Solve ==
               ok == ~Infeasible(sv)
               cl == IF DevF3 THEN nClassLmi + ClassLmis(prog.cls) ELSE ClassLmis(prog.cls)
               nb == Cardinality({i \in 1..Len(sv) : sv[i].edit = "block"})
-              pr == IF prog.part = 0 THEN 0 ELSE IF DevF4 THEN nPartRows + 4 + 5 * nb ELSE 4 + 5 * nb
+              pr == IF prog.part = 0 THEN 0 ELSE IF DevF4 THEN nPartRows + 5 + 5 * nb ELSE 5 + 5 * nb
               ed == [metric |-> Cardinality({i \in 1..Len(sv) : sv[i].edit = "metric"}),
-                     lmi |-> Cardinality({i \in 1..Len(sv) : sv[i].edit = "lmi"})]
+                     lmi |-> Cardinality({i \in 1..Len(sv) : sv[i].edit = "lmi"}),
+                     fcons |-> Cardinality({i \in 1..Len(sv) : sv[i].edit = "fcons"})]
               s == SentList(prog, ed, cl, pr) \o (IF Infeasible(sv) THEN <<Sc("pep")>> ELSE <<>>)
           IN /\ solves' = sv
              /\ nClassLmi' = cl /\ nPartRows' = pr
@@ -127,7 +131,7 @@ SentOnce == phase = "build" \/
    /\ Cardinality({k \in 1..Len(sent) : sent[k].src = "metric"}) = prog.metrics + ed.metric
    /\ Cardinality({k \in 1..Len(sent) : sent[k].src = "class" /\ sent[k].k = "lmi"}) = ClassLmis(prog.cls)
    /\ Cardinality({k \in 1..Len(sent) : sent[k].src = "part"})
-        = (IF prog.part # 0 THEN 4 + 5 * Cardinality({i \in 1..Len(solves) : solves[i].edit = "block"}) ELSE 0)
+        = (IF prog.part # 0 THEN 5 + 5 * Cardinality({i \in 1..Len(solves) : solves[i].edit = "block"}) ELSE 0)
 \* C13: a cached value belongs to the current epoch
 Fresh == cache # 0 => cache = epoch
 \* C05: the native list has exactly one entry per scalar, 1 + n*n per LMI, the Gram PSD first, one extra row with a heuristic
